@@ -23,6 +23,10 @@ type c07Pattern struct {
 	Cells []int `json:"cells"`          // per entry: auth(2) x tree(3) x skipmode(4) in mixed radix
 	Extra int   `json:"extra"`          // 0 none; 1..k+1 policy change before entry (extra-1); k+2..2k+2 attestation entry before entry (extra-k-2)
 	Ref2  []int `json:"ref2,omitempty"` // positions after which an entry for a second ref is interleaved (sampled runs only)
+	// Lead (sampled runs only): every revoking annotation also names an entry of
+	// an unrelated reference - 1: listed first, 2: listed last. Such an entry
+	// lies outside the range verified for main.
+	Lead int `json:"lead,omitempty"`
 }
 
 const c07CellSpace = 24
@@ -67,6 +71,20 @@ func c07Policies() []kit.PolicySpec {
 func c07World(p c07Pattern) kit.World {
 	w := kit.World{Policies: c07Policies()}
 	w.Events = append(w.Events, kit.Event{Kind: "policy", Policy: 0, Signer: -1})
+	foreign := -1
+	if p.Lead > 0 {
+		w.Events = append(w.Events, kit.Event{Kind: "other", Ref: "refs/heads/unrelated", Tree: 2, Signer: -1})
+		foreign = len(w.Events) - 1
+	}
+	withForeign := func(ts []int) []int {
+		switch p.Lead {
+		case 1:
+			return append([]int{foreign}, ts...)
+		case 2:
+			return append(append([]int{}, ts...), foreign)
+		}
+		return ts
+	}
 	authorised := 0 // key authorised by the policy currently in force
 	var pushIdx []int
 	var atEnd []int     // individually revoked at the end
@@ -95,7 +113,7 @@ func c07World(p c07Pattern) kit.World {
 		pushIdx = append(pushIdx, pi)
 		switch skip {
 		case 1:
-			w.Events = append(w.Events, kit.Event{Kind: "annotate", Targets: []int{pi}, Skip: true, Signer: -1})
+			w.Events = append(w.Events, kit.Event{Kind: "annotate", Targets: withForeign([]int{pi}), Skip: true, Signer: -1})
 		case 2:
 			atEnd = append(atEnd, pi)
 		case 3:
@@ -114,10 +132,10 @@ func c07World(p c07Pattern) kit.World {
 		w.Events = append(w.Events, kit.Event{Kind: "approve", Signer: -1, Items: []kit.AttItem{{Kind: "auth", Stmt: c, Path: c, Signers: []int{0}}}})
 	}
 	for _, pi := range atEnd {
-		w.Events = append(w.Events, kit.Event{Kind: "annotate", Targets: []int{pi}, Skip: true, Signer: -1})
+		w.Events = append(w.Events, kit.Event{Kind: "annotate", Targets: withForeign([]int{pi}), Skip: true, Signer: -1})
 	}
 	if len(sharedEnd) > 0 {
-		w.Events = append(w.Events, kit.Event{Kind: "annotate", Targets: sharedEnd, Skip: true, Signer: -1})
+		w.Events = append(w.Events, kit.Event{Kind: "annotate", Targets: withForeign(sharedEnd), Skip: true, Signer: -1})
 	}
 	w.Normalise()
 	return w
@@ -182,7 +200,10 @@ func runC07(t *testing.T, s *kit.Session, p c07Pattern) *kit.Failure {
 	if v.Kind == "ACCEPT" && nUnauth > 0 {
 		classes = append(classes, "tolerated_violation")
 	}
-	s.ObserveKey(fmt.Sprintf("%d|%v|%d|%v", p.K, p.Cells, p.Extra, p.Ref2), nUnauth >= 1 && nSkip >= 1, func() any { return p }, classes...)
+	if p.Lead > 0 {
+		classes = append(classes, "annotation_also_names_unrelated_entry")
+	}
+	s.ObserveKey(fmt.Sprintf("%d|%v|%d|%v|%d", p.K, p.Cells, p.Extra, p.Ref2, p.Lead), nUnauth >= 1 && nSkip >= 1, func() any { return p }, classes...)
 	return nil
 }
 
@@ -197,7 +218,7 @@ func TestC07(t *testing.T) {
 	if s.Thorough() {
 		exhaustiveK = 4
 	}
-	s.SetRule(fmt.Sprintf("bounded-exhaustive enumeration of every log of k<=%d entries on refs/heads/main where each entry is independently {authorised, unauthorised} x tree {T0,T1,T2} x revocation {never, annotation right after, own annotation at the end, one shared annotation at the end}, crossed with {no extra entry, a policy entry (changing who is authorised) before entry p or at the end, an attestation entry before entry p or at the end}; plus rapid-sampled logs of k=%d..8 with entries of a second ref interleaved. Oracle: the reference recovery model (last unskipped state, first unskipped tree-same fix, all intermediates revoked); REJECT must carry a documented error. Non-trivial: >=1 unauthorised entry and >=1 revocation; distinct by pattern", exhaustiveK, exhaustiveK+1))
+	s.SetRule(fmt.Sprintf("bounded-exhaustive enumeration of every log of k<=%d entries on refs/heads/main where each entry is independently {authorised, unauthorised} x tree {T0,T1,T2} x revocation {never, annotation right after, own annotation at the end, one shared annotation at the end}, crossed with {no extra entry, a policy entry (changing who is authorised) before entry p or at the end, an attestation entry before entry p or at the end}; plus rapid-sampled logs of k=%d..8 with entries of a second ref interleaved and, in half of them (any k>=1), revoking annotations that also name an entry of an unrelated reference (listed first or last). Oracle: the reference recovery model (last unskipped state, first unskipped tree-same fix, all intermediates revoked); REJECT must carry a documented error. Non-trivial: >=1 unauthorised entry and >=1 revocation; distinct by pattern", exhaustiveK, exhaustiveK+1))
 	ok := true
 	for k := 1; k <= exhaustiveK && ok; k++ {
 		n := c07Space(k)
@@ -212,12 +233,22 @@ func TestC07(t *testing.T) {
 	s.SetExhaustive(ok)
 	s.SetExtra("exhaustive_up_to_k", exhaustiveK)
 	kit.Campaign(s, t, "sampled", "pattern", s.Budget(16_000, 600_000), func(rt *rapid.T) c07Pattern {
-		k := rapid.IntRange(exhaustiveK+1, 8).Draw(rt, "k")
+		// logs longer than the enumerated ones, or - with a second ref / foreign
+		// annotation targets, which the enumeration does not have - of any length
+		variant := rapid.IntRange(0, 3).Draw(rt, "variant")
+		lo := exhaustiveK + 1
+		if variant >= 2 {
+			lo = 1
+		}
+		k := rapid.IntRange(lo, 8).Draw(rt, "k")
 		p := c07Pattern{K: k, Extra: rapid.IntRange(0, 2*(k+1)).Draw(rt, "extra")}
+		if variant >= 2 {
+			p.Lead = rapid.IntRange(1, 2).Draw(rt, "lead")
+		}
 		for i := 0; i < k; i++ {
 			p.Cells = append(p.Cells, rapid.IntRange(0, c07CellSpace-1).Draw(rt, "cell"))
 		}
-		if rapid.Bool().Draw(rt, "ref2") {
+		if rapid.Bool().Draw(rt, "ref2") || variant == 3 {
 			p.Ref2 = rapid.SliceOfNDistinct(rapid.IntRange(0, k-1), 1, 3, func(i int) int { return i }).Draw(rt, "ref2pos")
 		}
 		return p
